@@ -65,7 +65,7 @@ Lemma eqb_nat_true (a b : nat) : (a =? b)%nat = true -> a = b.
 Proof. apply Nat.eqb_eq. Qed.
 
 (* closed conjunctions of computations (split only on /\, never on =) *)
-Ltac vm_conj := intros; repeat match goal with |- _ /\ _ => split end; vm_compute; reflexivity.
+Ltac vm_conj := intros; repeat match goal with |- _ /\ _ => split end; (vm_compute; reflexivity).
 
 (* split H : a && b && ... = true into its conjuncts *)
 Ltac andb_split H :=
